@@ -88,8 +88,11 @@ fn pat(id: u64, n: usize) -> Vec<u8> {
 enum TOp {
     AllocBytes(u32),
     AllocTyped(u8),
+    AllocAligned(u8, u32),
     DropLive(usize),
     DiscardFreelist,
+    SetMinSeg(u32),
+    IncDiscarded(u32),
 }
 
 struct Hist {
@@ -131,8 +134,28 @@ fn recover<A: VArena>(out: &mut Out, cfg: &Cfg, img: &[u8], live: &[LiveR], what
             return;
         }
     }
+    // every range that was live must still be below the cursor (fresh space starts there) ...
+    for l in live {
+        if l.cap > 0 && (l.off + l.cap) as usize > cur {
+            out.viol("C06", "live-range-above-cursor-after-crash", detail(format!("range #{} [{},+{}) that was live before the crash lies above the reopened cursor {}: the next fresh allocation hands it out again", l.id, l.off, l.cap, cur)));
+            return;
+        }
+    }
     out.inc("c06_images_reopened");
     let snap = a.snap();
+    // ... and must not be (part of) a segment of the reopened free list
+    if snap.complete {
+        for n in snap.nodes.iter() {
+            let (no, ns) = (n.0, n.0 + 8 + n.1);
+            for l in live {
+                if l.cap > 0 && no < l.off + l.cap && l.off < ns {
+                    out.viol("C06", "live-range-on-free-list-after-crash", detail(format!("segment (node {}, data size {}) of the reopened free list intersects range #{} [{},+{}) that was live before the crash; free list of the image: {:?}", n.0, n.1, l.id, l.off, l.cap, snap.nodes)));
+                    return;
+                }
+            }
+        }
+        out.inc("c06_freelist_vs_live_checks");
+    }
     let removed_linked = snap.nodes.iter().any(|n| n.1 == 0);
     if removed_linked {
         out.inc("c06_images_with_removed_node_linked");
@@ -147,6 +170,17 @@ fn recover<A: VArena>(out: &mut Out, cfg: &Cfg, img: &[u8], live: &[LiveR], what
         while failures < sizes.len() * 2 && k < 400 {
             let n = sizes[k % sizes.len()];
             k += 1;
+            if k % 7 == 3 {
+                // typed / aligned requests take the other slow-path and fast-path routines
+                BUDGET.with(|b| b.set(budget));
+                let r = if k % 2 == 0 { unsafe { a.alloc::<A8<16>>() }.map(|mut x| (Handle::offset(&x), Handle::capacity(&x), Handle::detach(&mut x))) } else { a.alloc_aligned_bytes::<A4<4>>(n).map(|mut x| (Handle::offset(&x), Handle::capacity(&x), Handle::detach(&mut x))) };
+                BUDGET.with(|b| b.set(-1));
+                match r {
+                    Ok((o, c, ())) => got.push((o as u32, c as u32)),
+                    Err(_) => failures += 1,
+                }
+                continue;
+            }
             BUDGET.with(|b| b.set(budget));
             let r = a.alloc_bytes(n);
             BUDGET.with(|b| b.set(-1));
@@ -240,11 +274,14 @@ fn run_history<A: VArena>(out: &mut Out, seed: u64, index: u64, abort_point: Opt
     }
     let n_ops = rng.range(4, 10);
     for opi in 0..n_ops as usize {
-        let op = match rng.below(10) {
+        let op = match rng.below(14) {
             0..=4 => TOp::AllocBytes(*rng.pick(&[8u32, 16, 24, 40, 9, 33, 64, 1, 100])),
             5 => TOp::AllocTyped(*rng.pick(&[8u8, 9, 6])),
             6..=8 if !h.live.is_empty() => TOp::DropLive(rng.usize(h.live.len())),
             9 => TOp::DiscardFreelist,
+            10 | 11 => TOp::AllocAligned(*rng.pick(&[8u8, 6, 2]), *rng.pick(&[0u32, 3, 8, 13, 24, 40, 100])),
+            12 => TOp::SetMinSeg(*rng.pick(&[0u32, 1, 8, 20, 48])),
+            13 => TOp::IncDiscarded(*rng.pick(&[0u32, 1, 7, 100])),
             _ => TOp::AllocBytes(24),
         };
         // the in-flight range is "don't care"
@@ -284,6 +321,18 @@ fn run_history<A: VArena>(out: &mut Out, seed: u64, index: u64, abort_point: Opt
                     new_live = Some(LiveR { off: o as u32, cap: c as u32, boff: bo as u32, bcap: bc as u32, id });
                 }
             }
+            TOp::AllocAligned(ty, extra) => {
+                let r = if *ty == 8 { a.alloc_aligned_bytes::<A8<8>>(*extra).map(|mut x| (Handle::offset(&x), Handle::capacity(&x), Handle::buffer_offset(&x), Handle::buffer_capacity(&x), Handle::detach(&mut x))) } else if *ty == 2 { a.alloc_aligned_bytes::<A2<2>>(*extra).map(|mut x| (Handle::offset(&x), Handle::capacity(&x), Handle::buffer_offset(&x), Handle::buffer_capacity(&x), Handle::detach(&mut x))) } else { a.alloc_aligned_bytes::<A4<4>>(*extra).map(|mut x| (Handle::offset(&x), Handle::capacity(&x), Handle::buffer_offset(&x), Handle::buffer_capacity(&x), Handle::detach(&mut x))) };
+                SNAP_ON.with(|s| s.set(false));
+                if let Ok((o, c, bo, bc, ())) = r {
+                    if c > 0 {
+                        let id = h.next_id;
+                        h.next_id += 1;
+                        unsafe { std::ptr::copy_nonoverlapping(pat(id, c).as_ptr(), a.raw_mut_ptr().add(o), c) };
+                        new_live = Some(LiveR { off: o as u32, cap: c as u32, boff: bo as u32, bcap: bc as u32, id });
+                    }
+                }
+            }
             TOp::DropLive(_) => {
                 let l = dropping.clone().unwrap();
                 unsafe { a.dealloc(l.boff, l.bcap) };
@@ -291,6 +340,8 @@ fn run_history<A: VArena>(out: &mut Out, seed: u64, index: u64, abort_point: Opt
             TOp::DiscardFreelist => {
                 let _ = a.discard_freelist();
             }
+            TOp::SetMinSeg(v) => a.set_minimum_segment_size(*v),
+            TOp::IncDiscarded(v) => a.increase_discarded(*v),
         }
         SNAP_ON.with(|s| s.set(false));
         // after the last event
@@ -346,8 +397,11 @@ fn op_kind(op: &TOp) -> &'static str {
     match op {
         TOp::AllocBytes(_) => "alloc_bytes",
         TOp::AllocTyped(_) => "alloc_typed",
+        TOp::AllocAligned(..) => "alloc_aligned",
         TOp::DropLive(_) => "dealloc",
         TOp::DiscardFreelist => "discard_freelist",
+        TOp::SetMinSeg(_) => "set_minimum_segment_size",
+        TOp::IncDiscarded(_) => "increase_discarded",
     }
 }
 
